@@ -104,7 +104,8 @@ def tree_files(d1, d2, f1, f3):
 
 def measurements_for(content):
     k = sum(ord(c) for c in content)
-    return [Measurement(f"fn_{content}_{j}", Location(3 + j, 1 + j), Location(40 + j, 2), v) for j, v in enumerate([10 + k % 7, 31 + k % 29, 61 + k % 13])]
+    # two of the long functions share a name (overloads / __init__ of two classes): they are still two functions
+    return [Measurement(f"fn_{content}_{'same' if j else 'short'}", Location(3 + j, 1 + j), Location(40 + j, 2), v) for j, v in enumerate([10 + k % 7, 31 + k % 29, 61 + k % 13])]
 
 
 class _Rich:
@@ -124,7 +125,20 @@ class _Lexer:
         return self._n
 
 
+_SNAP = None
+
+
+def _fresh_process_state():
+    """every explored path (and the replay) starts from the module/class-level state of a freshly imported package"""
+    from vlib.hx import StateSnapshot
+    global _SNAP
+    if _SNAP is None:
+        _SNAP = StateSnapshot()
+    _SNAP.restore()
+
+
 def _install(fs, analysed, checked_texts):
+    _fresh_process_state()
     FP = fsstub.make_path_class(fs)
     fos = fsstub.FakeOS(fs)
     con = RecConsole()
@@ -459,6 +473,7 @@ REAL_FILES = {
     "huge.js": "function huge(a) {\n" + _long(70) + "  return a;\n}\n\nfunction mid(b) { // NOCL\n" + _long(45) + "}\n\nconst arrow = (c) => {\n" + _long(31) + "};\n",
     "Svc.java": "class Svc {\n  int work(int a) throws E {\n" + _long(62, "    ") + "    return a;\n  }\n  /* nocl */ int skip(int b) {\n" + _long(40, "    ") + "    return b;\n  }\n}\n",
     "lat1.py": b"# caf\xe9\ndef latin(a):\n" + _long(36, "    ", "").encode() + b"    return a\n",
+    "twice.py": "class A:\n    def __init__(self):\n" + _long(34, "        ", "") + "\n\nclass B:\n    def __init__(self):\n" + _long(36, "        ", "") + "\n",
     "cmt.c": "int f(int a) {\n// only a comment\n" + "".join(f"  v{i} = {i}; /* c */\n\n" for i in range(32)) + "  return a;\n}\n",
 }
 REAL_NAMES = sorted(REAL_FILES)
@@ -469,6 +484,7 @@ def _check_real(fi, ai, quiet):
     name = REAL_NAMES[fi]
     files = {"/w/src/main.py": "x = 1\n", "/w/pkg/sub/" + name: REAL_FILES[name], "/w/pkg/other.py": REAL_FILES["plain.py"]}
     fs = fsstub.FakeFS(files, cwd="/w")
+    _fresh_process_state()
     FP = fsstub.make_path_class(fs)
     fos = fsstub.FakeOS(fs)
     con = RecConsole()
